@@ -60,9 +60,9 @@ const concSize = 64 // larger than any universe: every selection scans the whole
 
 // genConc draws one concurrent case: 4..8 clients, <= 30 calls over <= 9 txs.
 func genConc(r *run.Rng, idx int) *ConcCase {
-	nPlain, nBox := r.Range(2, 6), r.Range(0, 2)
-	if idx%3 == 0 {
-		nBox = r.Range(1, 3)
+	nPlain, nBox := r.Range(2, 6), r.Range(1, 3)
+	if idx%5 < 2 {
+		nBox = 0 // box-free histories: nothing in them can be attributed to the box-delete mechanism
 	}
 	cs := &ConcCase{Mon: "conc"}
 	var specs []TxSpec
@@ -219,24 +219,27 @@ type concStats struct {
 	porcOK, porcIllegal, porcUnknown, porcPartitioned                      int64
 }
 
-// boxDeleteSeen tells whether a DelTxs that lists a box related to one of `involved` began
-// before stamp `before` (the attribution rule of the orphaned-index mechanism).
-func boxDeleteSeen(u *Universe, hist []COp, involved uint64, before int64) bool {
+// boxDeleteSeen tells whether a call that makes the pool delete a box began before stamp `before`: a
+// DelTxs listing a box, or a selection at a time past a box's expiration. Only such calls can leave pending
+// entries without index entry (see shadow in seq.go); without a sequential order the concurrent checker
+// cannot be more precise, so every violation of a history that contains one is attributed to that mechanism.
+func boxDeleteSeen(u *Universe, hist []COp, before int64) bool {
 	for _, o := range hist {
-		if o.Op != "del" || o.Call >= before {
+		if o.Call >= before {
 			continue
 		}
-		for _, id := range o.IDs {
-			if !u.IsBox(id) {
-				continue
+		switch o.Op {
+		case "del":
+			for _, id := range o.IDs {
+				if u.IsBox(id) {
+					return true
+				}
 			}
-			rel := u.subsM[id]
-			for _, s := range idsOf(u.subsM[id]) {
-				rel |= u.boxesM[s]
-			}
-			rel &^= bit(id)
-			if rel&involved != 0 {
-				return true
+		case "get":
+			for id := range u.Specs {
+				if u.IsBox(id) && u.EffExp[id] < uint64(o.Time) {
+					return true
+				}
 			}
 		}
 	}
@@ -292,7 +295,7 @@ func checkIntervals(u *Universe, hist []COp, st *concStats) []viol {
 		}
 	}
 	cls := func(base string, involved uint64, before int64) string {
-		if boxDeleteSeen(u, hist, involved, before) {
+		if boxDeleteSeen(u, hist, before) {
 			return "C18/" + base + orphanSuffix
 		}
 		return "C18/" + base
@@ -603,7 +606,7 @@ func checkHistory(c *run.Ctx, u *Universe, cs *ConcCase, hist []COp, st *concSta
 		st.porcIllegal++
 		if len(vs) == 0 {
 			class := "C18/history-not-linearizable"
-			if boxDeleteSeen(u, hist, ^uint64(0), 1<<62) {
+			if boxDeleteSeen(u, hist, 1<<62) {
 				class += orphanSuffix
 			}
 			report(class, "no sequential order of the recorded calls that respects their real-time order is a run of a set-like pool")
